@@ -91,7 +91,7 @@ def gen_spec(prop, rng, tier):
     if prop == 'C15':
         outs = []
         for f in FMTS:
-            style = rng.randrange(6)
+            style = rng.randrange(7)
             ext = plans.EXT[f]
             if style == 0:
                 path = None
@@ -103,6 +103,9 @@ def gen_spec(prop, rng, tier):
                 path = 'results/' + gen.rand_seq(rng, gen.NAME_SAFE[:62] + '._-', rng.randint(180, 240)) + '.' + ext
             elif style == 4:
                 path = 'aln'           # no extension
+            elif style == 6:
+                # characters that are ordinary in file names and special elsewhere (printf, shells, getopt)
+                path = rng.choice(['50%similar', 'top10%identity', 'cov%c', '100%', 'a b', "it's", 'x;y', '-dash', 'q?*', 'a=b', '#1', '~tmp', '{x}', '%n%n%s%s']) + rng.choice(['.' + ext, '', '.' + ext])
             else:
                 path = './' + gen.rand_seq(rng, gen.NAME_SAFE[:62], 3) + '.' + rng.choice(['txt', 'out', ext])
             outs.append([f, path])
